@@ -1235,15 +1235,16 @@ def render_partial(src: str, parts: dict[str, str], data: dict[str, Any], pol: s
     return _probe_outcome(o) if pol == "P" else o
 
 
-def render_env(src: str, parts: dict[str, str], data: dict[str, Any], pol: str, asynchronous: bool = False) -> tuple[str, str]:
+def render_env(src: str, parts: dict[str, str], data: dict[str, Any], pol: str, asynchronous: bool = False,
+               env_globals: dict[str, Any] | None = None, tmpl_globals: dict[str, Any] | None = None) -> tuple[str, str]:
     """Render with the Shopify-compatible environment (adds tablerow) and a DictLoader."""
     from liquid2 import DictLoader
     from liquid2.shopify.environment import Environment as ShopifyEnvironment
     import asyncio
     del _TOUCHED[:]
     try:
-        env = ShopifyEnvironment(undefined=_classes()[pol], loader=DictLoader(parts))
-        t = env.from_string(src)
+        env = ShopifyEnvironment(undefined=_classes()[pol], loader=DictLoader(parts), globals=env_globals)
+        t = env.from_string(src, globals=tmpl_globals)
         if asynchronous:
             if not _LOOP:
                 _LOOP.append(asyncio.new_event_loop())
@@ -1255,7 +1256,7 @@ def render_env(src: str, parts: dict[str, str], data: dict[str, Any], pol: str, 
     return _probe_outcome(o) if pol == "P" else o
 
 
-def beyond_directed() -> list[tuple[str, dict[str, str], dict[str, Any], bool, str | None]]:
+def beyond_directed() -> list[tuple]:
     """Outside the modelled fragment, never sampled: (source, partials, data,
     every reference resolves, equivalent source without the boundary | None).
 
@@ -1268,8 +1269,15 @@ def beyond_directed() -> list[tuple[str, dict[str, str], dict[str, Any], bool, s
         filter name used in the outer template and inside a render / include /
         macro whose arrow function reads a render / call ARGUMENT: with all
         data present no policy raises and the result equals the same body
-        evaluated without the boundary."""
-    out: list[tuple[str, dict[str, str], dict[str, Any], bool, str | None]] = []
+        evaluated without the boundary;
+    (c) values that are PRESENT but nil at every binding site (macro call
+        arguments - positional, keyword, with and without parameter defaults -,
+        with, render / include arguments, with ... as, for ... as, assign, for
+        items, lambda parameters, case / translate / cycle / ternary operands,
+        environment and template globals): nil is a value, nothing is missing,
+        no policy raises, and every policy prints the stated text (the
+        'equivalent source' is then the literal expected output)."""
+    out: list[tuple] = []
     base = {"l": [1, 2, 3, 4], "n": 2, "s": "ab", "who": "W",
             "ld": [{"a": 1, "c": "x"}, {"a": 2, "c": "y"}, {"a": 1, "c": "z"}], "d": {"k": 2}}
     # (a)
@@ -1336,6 +1344,59 @@ def beyond_directed() -> list[tuple[str, dict[str, str], dict[str, Any], bool, s
     out.append(("{{ ld | where: i => i.a == n | size }}{% render 'p', items: ld %}", parts, dict(base), False, None))
     out.append(("{{ ld | where: i => i.a == n | size }}{% render 'p', k: 1 %}", parts, dict(base), False, None))
     out.append(("{% assign k = 1 %}{% assign items = ld %}{% render 'p' %}", parts, dict(base), False, None))
+    # (c) PRESENT-but-nil values at every binding site: nil is a value, nothing is missing,
+    # so no policy raises and every policy prints the expected text
+    B = ("[{{ x }}|{{ x | default: 'd' }}|{{ x | size }}|{% if x == nil %}N{% else %}V{% endif %}|{% if x %}T{% else %}F{% endif %}"
+         "|{{ x | append: 's' }}|{{ x | plus: 1 }}|{{ x | upcase }}]")
+    NIL, ONE, DEF = "[|d|0|N|F|s|1|]", "[1|1|0|V|T|1s|2|1]", "[B|B|1|V|T|Bs|1|B]"
+    nparts = {"p": B, "pp": "{% render 'p', x: x %}{% include 'p' %}"}
+    nd = {"title": "T", "sub": None, "l": [1, None], "ln": [None], "d": {"k": None}, "ld": [{"a": 1, "c": None}, {"a": None, "c": "y"}]}
+    nil_args = ["sub", "nil", "d.k", "l[1]", "ln[0]", "ln.first", "l.last"]
+    for a in nil_args:
+        for mac, calls in (("{% macro row, t, x %}" + B + "{% endmacro %}", ["{% call row, title, @A@ %}", "{% call row, t: title, x: @A@ %}",
+                                                                              "{% call row, x: @A@ %}", "{% call row, @A@, @A@ %}"]),
+                           ("{% macro row, t, x: 'B' %}" + B + "{% endmacro %}", ["{% call row, title, @A@ %}", "{% call row, t: title, x: @A@ %}",
+                                                                                   "{% call row, x: @A@, t: @A@ %}"]),
+                           ("{% macro row, x: 'B', t: 'C' %}" + B + "{% endmacro %}", ["{% call row, @A@ %}", "{% call row, @A@, @A@ %}", "{% call row, x: @A@ %}"]),
+                           ("{% macro row, x %}" + B + "{% endmacro %}", ["{% call row, @A@ %}", "{% call row, x: @A@ %}"])):
+            for c in calls:
+                out.append((mac + c.replace("@A@", a), nparts, dict(nd), True, NIL))
+                out.append((mac + c.replace("@A@", a) + c.replace("@A@", a), nparts, dict(nd), True, NIL + NIL))
+        for form in ("{% with x: @A@ %}" + B + "{% endwith %}", "{% with t: title, x: @A@ %}" + B + "{% endwith %}",
+                     "{% render 'p', x: @A@ %}", "{% render 'p', t: title, x: @A@ %}", "{% include 'p', x: @A@ %}",
+                     "{% include 'p' with @A@ as x %}", "{% render 'p' with @A@ as x %}", "{% render 'p' with @A@ as x, t: title %}",
+                     "{% assign x = @A@ %}" + B, "{% assign y = @A@ %}{% assign x = y %}" + B, "{% include 'pp', x: @A@ %}"):
+            exp = NIL + NIL if "'pp'" in form else NIL
+            out.append((form.replace("@A@", a), nparts, dict(nd), True, exp))
+    out.append(("{% macro row, t, x: 'B' %}" + B + "{% endmacro %}{% call row, title %}{% call row, title, sub %}", nparts, dict(nd), True, DEF + NIL))
+    for form, exp in (("{% render 'p' for ln as x %}", NIL), ("{% include 'p' for ln as x %}", NIL), ("{% render 'p' for l as x %}", ONE + NIL),
+                      ("{% include 'p' for l as x %}", ONE + NIL), ("{% for x in ln %}" + B + "{% endfor %}", NIL),
+                      ("{% for x in l %}" + B + "{% endfor %}", ONE + NIL), ("{% for x in sub, 1 %}" + B + "{% endfor %}", NIL + ONE),
+                      ("{% for x in l reversed %}" + B + "{% endfor %}", NIL + ONE), ("{% for x in l offset: 1 %}" + B + "{% endfor %}", NIL),
+                      ("{% for y in l %}{% assign x = y %}{% endfor %}" + B, NIL),
+                      ("{% tablerow x in ln %}" + B + "{% endtablerow %}", None),
+                      ("{{ l | map: x => x | join: ',' }}|{{ l | where: x => x == nil | size }}|{{ l | compact: x => x | size }}|"
+                       "{{ l | find_index: x => x == nil }}|{{ l | reject: x => x | size }}|{{ l | find: x => x == nil | default: 'd' }}|"
+                       "{{ l | has: x => x == nil }}|{{ l | uniq: x => x | size }}|{{ l | sum: x => x }}", "1,|1|1|1|1|d|true|2|1"),
+                      ("{{ ld | map: i => i.c | join: ',' }}|{{ ld | where: i => i.a == nil | size }}|{{ ld | map: 'c' | compact | size }}|"
+                       "{{ ld | where: 'c' | size }}|{{ ld | where: 'a', nil | size }}|{{ ld | sum: 'a' }}|{{ ld | compact: 'a' | size }}", None),
+                      ("{% case sub %}{% when nil %}N{% else %}E{% endcase %}{% case 1 %}{% when sub, 1 %}W{% endcase %}", "NW"),
+                      ("{% translate w: sub %}hi {{ w }}|{% endtranslate %}{% echo sub %}{{ sub if true }}{{ 1 if sub else 2 }}"
+                       "{% cycle sub, 'a' %}{% cycle sub, 'a' %}", "hi |2a"),
+                      ("{% if sub %}T{% elsif d.k %}U{% else %}F{% endif %}{% unless sub %}U{% endunless %}{{ sub | default: title }}"
+                       "{{ title | default: sub }}{{ title | append: sub }}", None),
+                      ("{% capture x %}{% endcapture %}{{ x | default: 'd' }}{% assign x = sub | default: nil %}" + B, "d" + NIL)):
+        out.append((form, nparts, dict(nd), True, exp))
+    # environment and template globals that hold None
+    G = "{{ g }}|{{ g | default: 'd' }}|{% if g == nil %}N{% else %}V{% endif %}|{{ g | size }}|{{ g | upcase }}"
+    for opts in ({"env_globals": {"g": None}}, {"tmpl_globals": {"g": None}}, {"env_globals": {"g": 1}, "tmpl_globals": {"g": None}},
+                 {"env_globals": {"x": None}, "tmpl_globals": {"g": None}}):
+        out.append((G, nparts, dict(nd), True, "|d|N|0|", opts))
+        out.append(("{% render 'p', x: g %}|{% with x: g %}" + B + "{% endwith %}", nparts, dict(nd), True, NIL + "|" + NIL, opts))
+    out.append((G, nparts, dict(nd, g=None), True, "|d|N|0|", {"env_globals": {"g": 1}, "tmpl_globals": {"g": 2}}))
+    out.append((B, nparts, dict(nd), True, NIL, {"env_globals": {"x": None}}))
+    out.append((B, nparts, dict(nd), True, NIL, {"tmpl_globals": {"x": None}}))
+    out.append(("{% render 'p' %}", nparts, dict(nd), True, NIL, {"env_globals": {"x": None}}))
     return out
 
 
@@ -1568,7 +1629,7 @@ def main(chk: C.Check, build: C.Build) -> None:
     # 3. oracle beyond the model
     nbeyond = 0
     for src, data, complete in all_filter_sources():
-        if not thorough and r.random() > 0.12:
+        if not thorough and r.random() > 0.08:
             continue
         for ae in (False, True):
             outs = {pol: render_impl(src, data, pol, ae) for pol in POLS}
@@ -1580,17 +1641,18 @@ def main(chk: C.Check, build: C.Build) -> None:
         nbeyond += 1
     # directed sources beyond the model, never sampled, sync and async
     nbd = 0
-    for src, parts, data, complete, equiv in beyond_directed():
+    for src, parts, data, complete, equiv, *rest in beyond_directed():
+        opts = rest[0] if rest else {}
         both = []
         for asy in (False, True):
-            outs = {pol: render_env(src, parts, data, pol, asy) for pol in POLS}
+            outs = {pol: render_env(src, parts, data, pol, asy, **opts) for pol in POLS}
             both.append(outs)
             oracle(chk, src, {"data": data, "partials": parts, "async": asy}, outs, complete=complete)
             nbeyond += 1
             nbd += 1
             if equiv is not None:
                 for pol in POLS:
-                    o2 = render_env(equiv, parts, data, pol, asy)
+                    o2 = ("ok", equiv) if "{" not in equiv else render_env(equiv, parts, data, pol, asy, **opts)
                     if o2 != outs[pol]:
                         nm = {"D": "Undefined", "S": "StrictUndefined", "F": "FalsyStrictUndefined", "P": "probe"}[pol]
                         chk.finding(f"boundary-changes-result:{nm}",
